@@ -31,7 +31,8 @@ CHECKS["C11"] = dict(
           "63 known tags, 255UInt16 codes/offsets and UIntBase128 constants, read from the compiled program without running it. "
           "The two flag predicates of the transformed hmtx table test the specification's bits; UIntBase128 rejects a leading 0x80; the "
           "glyf reconstruction takes xMin from the decoded bounding box stream and writes loca in the format head announces; composite "
-          "glyphs look for WE_HAVE_INSTRUCTIONS in the same place as the writer. One known finding is reported on every run "
+          "glyphs look for WE_HAVE_INSTRUCTIONS in the same place as the writer; the WOFF2 header and the transformed glyf table (seven "
+          "sizes, eight streams) are read in the specified order; collection directory entries are UInt32/255UInt16 values. One known finding is reported on every run "
           "(KNOWN-FINDING line, exit 0): the rebuilt leftSideBearing[] array covers all glyphs instead of those past numberOfHMetrics. "
           "Decides a necessary condition of the property (a wrong row mis-decodes some conforming file); stream bookkeeping and "
           "reconstruction arithmetic are not decided."),
@@ -46,7 +47,7 @@ CHECKS["C18"] = dict(
           "subroutine bias step function at all breakpoints, nesting/stack limits, bounded interpreter recursion on every cycle, and "
           "visitor implementations without catch-all arms; blend takes its ItemVariationData index from the charstring's vsindex, else the "
           "Private DICT's, and pairs region scalars and deltas position by position (no skip/step adaptor on either side of the zip); the hint mask is read with ceil(stems_len/8) bytes after the stems still on "
-          "the stack were counted, on every path. Path arithmetic is not decided; operand-stack depth only through the audited indexing/arithmetic sites of C01."),
+          "the stack were counted, on every path; CFF/CFF2 header layouts. Path arithmetic is not decided; operand-stack depth only through the audited indexing/arithmetic sites of C01."),
     design_ref="DESIGN.md section 6, C18",
 )
 
@@ -58,7 +59,7 @@ CHECKS["C06"] = dict(
           "is returned as; full-repertoire before BMP; Unicode before Symbol/Mac Roman/Big5); and of the agreement between single lookups and "
           "enumeration for format 4 (one shared kernel fed with the raw segment values; the enumeration neither truncates or filters its segment iterator nor leaves "
           "its loops early) with every format listed in both dispatchers; the symbol PUA fallback tests U+F000..=U+F0FF inclusive; no unchecked "
-          "lossy cast of a code or glyph id in the lookup code. Format "
+          "lossy cast of a code or glyph id in the lookup code; cmap header layout. Format "
           "0/2/6/10/12 lookup arithmetic and Big5 (encoding_rs) are not decided."),
     design_ref="DESIGN.md section 6, C06 and section 11",
 )
@@ -70,7 +71,8 @@ CHECKS["C12"] = dict(
           "seven variation tags), the CFF2 variation store is cleared before writing, the result comes from the single sfnt producer, "
           "the bounding-box recursion is depth-bounded, and tables that declare a record size (MVAR, fvar) are read with that size as the "
           "array stride; per-iteration scratch buffers are reset inside their loop; delta and point iterators are zipped without skip/step "
-          "adaptors; the X and Y deltas of a gvar tuple are read as one packed stream of 2n deltas. All numeric clauses of the variation model are not decided."),
+          "adaptors; the X and Y deltas of a gvar tuple are read as one packed stream of 2n deltas; the readers of HVAR, ItemVariationStore, fvar, gvar, MVAR, "
+          "avar, STAT and cvar follow the specification's record layouts. All numeric clauses of the variation model are not decided."),
     design_ref="DESIGN.md section 6, C12",
 )
 
@@ -92,7 +94,8 @@ CHECKS["C10"] = dict(
     text=("Static decision of the selection discipline of the container layer: a member index reaches a total accessor unmodified, tables are "
           "selected by tag equality inside Iterator::find (order independent), has_table/table_data agree on their selector, the WOFF reader "
           "inflates exactly under comp_length != orig_length and reads (offset, comp_length) with no length-limiting adaptor on the inflater, "
-          "member functions receive the caller's own index, every decision on the sfnt version lists 0x00010000, 'true' and 'OTTO', and no explicit panic is left in the layer — so an "
+          "member functions receive the caller's own index, every decision on the sfnt version lists 0x00010000, 'true' and 'OTTO', the offset table, WOFF/WOFF2 headers and collection records "
+          "are read in the specifications' item order, and no explicit panic is left in the layer — so an "
           "absent table or out-of-range member yields None/Err. Byte-for-byte equality of table data is not decided."),
     design_ref="DESIGN.md section 6, C10",
 )
@@ -126,7 +129,8 @@ CHECKS["C17"] = dict(
           "one of the documented decompositions of its function fed by its named table or a constant; the dispatch lists every ScriptType; the "
           "modifier-combining-mark predicate is true exactly for the 14 marks of UTR #53; the Indic preprocessing steps run in their documented "
           "order; the NotReordered fast path ends below U+0300; the sort of a mark run is unconditional; the Bengali YA+NUKTA recomposition tests "
-          "its two constants. That the comparator realises AMTRA and that the "
+          "its two constants; the modified combining class table equals the documented one for every class in use; the Thai/Lao above-base "
+          "mark predicate equals the documented set. That the comparator realises AMTRA and that the "
           "decomposition tables are the documented ones is not decided."),
     design_ref="DESIGN.md section 6, C17",
 )
@@ -139,7 +143,8 @@ CHECKS["C04"] = dict(
           "precedence equal the specification; the reader builds the subtable type of each lookup kind; every dispatcher lists all seven kinds; "
           "positions inside a matched sequence come from the lookup-flag-aware iterator; nested lookups are depth bounded and receive the nested lookup's own match type; the three mark-skipping "
           "modes of match_glyph only ever reject marks; every FeatureMask flag has exactly one row, with its namesake tag, in the evaluated "
-          "FEATURE_MASKS table. Glyph matching, "
+          "FEATURE_MASKS table; the readers of 23 OpenType Layout record types consume the specification's items in order, with their widths, "
+          "into fields of the same meaning. Glyph matching, "
           "context rule selection, iteration arithmetic and ligature bookkeeping are not decided."),
     design_ref="DESIGN.md section 6, C04",
 )
@@ -223,7 +228,7 @@ CHECKS["C05"] = dict(
           "specification's bits; a ValueRecord is consumed in the specification's field order with each value landing in the Adjust field of the "
           "same meaning; both dispatchers list every PosLookup kind; nested lookups are applied at the position found by the flag-aware iterator; the base of a nested MarkToBase/MarkToLigature is "
           "found ignoring marks; cursive adjustment precedes mark positioning; the lookup indices of a feature are sorted before they are "
-          "applied; mark-skipping modes only reject marks."),
+          "applied; mark-skipping modes only reject marks; layout record and kern class table readers follow the specification's item order."),
     design_ref="DESIGN.md section 11 (C05 was listed as not applicable in section 7; the table clauses were added later)",
 )
 
